@@ -1,0 +1,83 @@
+//go:build verif
+
+package daemon
+
+import (
+	"context"
+	"encoding/json"
+	"sync"
+
+	"github.com/AliyunContainerService/terway/pkg/aliyun/client"
+	"github.com/AliyunContainerService/terway/pkg/eni"
+	"github.com/AliyunContainerService/terway/pkg/k8s"
+	"github.com/AliyunContainerService/terway/pkg/storage"
+	"github.com/AliyunContainerService/terway/rpc"
+	"github.com/AliyunContainerService/terway/types"
+	"github.com/AliyunContainerService/terway/types/daemon"
+)
+
+// VerifService exposes the unexported networkService (its builder needs ECS metadata and a
+// live cluster): the RPC surface plus one GC pass.
+type VerifService struct {
+	rpc.TerwayBackendServer
+	svc *networkService
+}
+
+func NewVerifService(k k8s.Kubernetes, db storage.Storage, mgr *eni.Manager, daemonMode string, ipam types.IPAMType, v4, v6, patchPodIPs bool) *VerifService {
+	s := &networkService{
+		daemonMode:        daemonMode,
+		k8s:               k,
+		resourceDB:        db,
+		eniMgr:            mgr,
+		pendingPods:       sync.Map{},
+		enableIPv4:        v4,
+		enableIPv6:        v6,
+		ipamType:          ipam,
+		enablePatchPodIPs: patchPodIPs,
+	}
+	return &VerifService{TerwayBackendServer: s, svc: s}
+}
+
+func (v *VerifService) VerifGCPods(ctx context.Context) error { return v.svc.gcPods(ctx) }
+
+func (v *VerifService) VerifPendingCount() int {
+	n := 0
+	v.svc.pendingPods.Range(func(_, _ any) bool { n++; return true })
+	return n
+}
+
+// VerifResourceDBCodec returns the (de)serializer InitResourceDB uses.
+func VerifResourceDBCodec() (storage.Serializer, storage.Deserializer) {
+	return json.Marshal, func(bytes []byte) (interface{}, error) {
+		resourceRel := &daemon.PodResources{}
+		err := json.Unmarshal(bytes, resourceRel)
+		if err != nil {
+			return nil, err
+		}
+		return *resourceRel, nil
+	}
+}
+
+func VerifGetPoolConfig(cfg *daemon.Config, daemonMode string, limit *client.Limits) (*daemon.PoolConfig, error) {
+	return getPoolConfig(cfg, daemonMode, limit)
+}
+
+func VerifGetENIConfig(cfg *daemon.Config, zoneID string) *daemon.ENIConfig {
+	return getENIConfig(cfg, zoneID)
+}
+
+func VerifCheckInstance(limit *client.Limits, daemonMode string, config *daemon.Config) (bool, bool) {
+	return checkInstance(limit, daemonMode, config)
+}
+
+func VerifFilterENINotFound(podResources []daemon.PodResources, attached map[string]*daemon.ENI) []daemon.PodResources {
+	return filterENINotFound(podResources, attached)
+}
+
+func VerifGetPodResources(list []interface{}) []daemon.PodResources { return getPodResources(list) }
+
+func VerifParseNetworkResource(item daemon.ResourceItem) eni.NetworkResource {
+	return parseNetworkResource(item)
+}
+
+func VerifDefaultForNetConf(netConf []*rpc.NetConf) error { return defaultForNetConf(netConf) }
